@@ -1614,6 +1614,55 @@ fn real_text(g: &RealOut) -> String {
     format!("disposition={:?} attrs={:?} nexthop={:?}", g.disp, decode_attrs(&g.attrs), g.nh)
 }
 
+/// which relations between prefix-set entries and the route a judged case exercised
+fn prefix_shape_counters(rep: &mut Report, prog: &Program, r: &RouteCtx) {
+    let Some((v6, addr, len)) = r.pfx else { return };
+    for s in &prog.stmts {
+        for c in &s.conds {
+            let RCond::Set(SetKind::Prefix, _, _, Some(set)) = c else { continue };
+            let SetBody::Prefix(es) = &set.body else { continue };
+            let fam: Vec<&PfxEntry> = es.iter().filter(|e| e.v6 == v6 && e.clean()).collect();
+            if fam.is_empty() {
+                continue;
+            }
+            let inside = |e: &PfxEntry| top_bits(addr, e.len.min(len), v6) == top_bits(e.addr, e.len.min(len), v6);
+            // an entry longer than the route that contains the route's address and whose
+            // range admits the route's length: must NOT match (it does not cover the route)
+            if fam.iter().any(|e| e.len > len && top_bits(addr, e.len, v6) == top_bits(e.addr, e.len, v6) && e.min <= len && len <= e.max) {
+                rep.count("prefix:longer-entry-admits-route-length");
+                if !fam.iter().any(|e| e.matches(v6, addr, len)) {
+                    rep.count("prefix:longer-entry-admits-route-length:and-nothing-covers");
+                }
+            }
+            if fam.iter().any(|e| e.min < e.len) {
+                rep.count("prefix:entry-range-starts-below-own-length");
+            }
+            if fam.iter().any(|e| e.max < e.len) {
+                rep.count("prefix:entry-range-entirely-below-own-length");
+            }
+            if fam.iter().any(|e| e.min > e.max) {
+                rep.count("prefix:entry-empty-range");
+            }
+            if fam.iter().any(|e| e.len == 0) {
+                rep.count(if v6 { "prefix:zero-entry-v6" } else { "prefix:zero-entry-v4" });
+            }
+            if fam.iter().all(|e| e.len > len) {
+                rep.count("prefix:route-shorter-than-every-entry");
+                if fam.iter().any(|e| inside(e)) {
+                    rep.count("prefix:route-shorter-than-every-entry:on-chain");
+                }
+            }
+            if fam.iter().any(|e| e.len == len && e.covers(v6, addr, len)) {
+                rep.count("prefix:route-equals-entry");
+            }
+            if fam.iter().any(|e| e.len + 1 == len && e.covers(v6, addr, len)) {
+                rep.count("prefix:route-one-bit-longer-than-entry");
+            }
+            rep.count(if v6 { "prefix:cond-on-v6-route" } else { "prefix:cond-on-v4-route" });
+        }
+    }
+}
+
 #[derive(PartialEq)]
 enum Verdict {
     Agree,
@@ -1646,6 +1695,7 @@ fn judge(ctx: &mut Ctx, asg: &PolicyAssignment, prog: &Program, r: &RouteCtx, ta
         }
     };
     ctx.rep.count(&format!("{}:judged", tag));
+    prefix_shape_counters(&mut ctx.rep, prog, r);
     ctx.rep.count(match a.decided {
         Some(Disp::Accept) => "clause:accept-by-statement",
         Some(Disp::Reject) => "clause:reject-by-statement",
@@ -1750,7 +1800,11 @@ fn ext_values() -> Vec<[u8; 8]> {
 const EXT_LITERALS: [&str; 6] = ["rt:65001:100", "rt:65001:200", "soo:65001:100", "rt:4200000001:7", "rt:192.0.2.1:9", "rt:65009:1"];
 
 /// (v6, addr, len) stems the prefix universe is built around
-const V4_STEMS: [(u32, u8); 9] = [
+const V4_STEMS: [(u32, u8); 13] = [
+    (0x0A00_0000, 12),
+    (0x0A00_0000, 16),
+    (0x0A00_0000, 24),
+    (0xC0A8_0000, 24),
     (0x0A00_0000, 8),
     (0x0A01_0000, 16),
     (0x0A01_0200, 24),
@@ -1761,13 +1815,20 @@ const V4_STEMS: [(u32, u8); 9] = [
     (0xC0A8_0000, 16),
     (0x0000_0000, 0),
 ];
-const V6_STEMS: [(u128, u8); 5] = [
+const V6_STEMS: [(u128, u8); 8] = [
+    (0x2001_0db8_0000_0000_0000_0000_0000_0000, 33),
+    (0x2001_0db8_0000_0000_0000_0000_0000_0000, 48),
+    (0x2001_0db8_0000_0000_0000_0000_0000_0000, 64),
     (0x2001_0db8_0000_0000_0000_0000_0000_0000, 32),
     (0x2001_0db8_0001_0000_0000_0000_0000_0000, 48),
     (0x2001_0db8_0001_0002_0000_0000_0000_0000, 64),
     (0x2001_0db8_0000_0000_0000_0000_0000_0000, 47),
     (0, 0),
 ];
+
+fn rng_small(rng: &mut Rng) -> u64 {
+    rng.range(0, 12)
+}
 
 fn gen_pfx_entry(rng: &mut Rng) -> PfxEntry {
     let v6 = rng.chance(1, 4);
@@ -1779,10 +1840,45 @@ fn gen_pfx_entry(rng: &mut Rng) -> PfxEntry {
         (s.0 as u128, s.1)
     };
     let w = width(v6) as u64;
-    let d1 = rng.range(0, 9);
-    let min = rng.range(len as u64, (len as u64 + d1).min(w)) as u8;
-    let d2 = rng.range(0, 16);
-    let max = if rng.chance(1, 4) { min } else { rng.range(min as u64, (min as u64 + d2).min(w)) as u8 };
+    // The loader accepts any (min, max): ranges that start below the entry's own
+    // length, lie entirely below it, or are empty (min > max) are all legal input.
+    // By the statement such an entry still has to *cover* the route (entry length
+    // <= route length), so the part of a range below the entry's length never matches.
+    let mode = if len == 0 { 0 } else { rng.below(20) };
+    let (min, max) = match mode {
+        0..=10 => {
+            let d1 = rng.range(0, 9);
+            let min = rng.range(len as u64, (len as u64 + d1).min(w)) as u8;
+            let d2 = rng.range(0, 16);
+            let max = if rng.chance(1, 4) { min } else { rng.range(min as u64, (min as u64 + d2).min(w)) as u8 };
+            (min, max)
+        }
+        11..=14 => {
+            // straddles the entry's length
+            let min = rng.range(0, len as u64 - 1) as u8;
+            let d = rng_small(rng);
+            let max = rng.range(len as u64, (len as u64 + d).min(w)) as u8;
+            (min, max)
+        }
+        15..=17 => {
+            // entirely below the entry's length
+            let min = rng.range(0, len as u64 - 1) as u8;
+            let max = rng.range(min as u64, len as u64 - 1) as u8;
+            (min, max)
+        }
+        18 => (len, len),
+        _ => {
+            // empty range
+            let max = rng.range(0, w - 1) as u8;
+            (rng.range(max as u64 + 1, w) as u8, max)
+        }
+    };
+    let (min, max) = if len == 0 && rng.bool() {
+        // default-route entries with the usual ranges
+        *rng.pick(&[(0u8, 0u8), (0, 32), (8, 24), (24, 24), (0, 8), (16, 32), (1, 1)])
+    } else {
+        (min, max)
+    };
     PfxEntry { v6, addr, len, min, max }
 }
 
@@ -1791,7 +1887,7 @@ fn gen_set_body(rng: &mut Rng, kind: SetKind) -> SetBody {
     match kind {
         SetKind::Prefix => {
             let mut v: Vec<PfxEntry> = Vec::new();
-            match rng.below(8) {
+            match rng.below(12) {
                 // the shapes named in the property: nested entries with disjoint / overlapping ranges
                 0 => {
                     v.push(PfxEntry { v6: false, addr: 0x0A00_0000, len: 8, min: 8, max: 24 });
@@ -1802,9 +1898,22 @@ fn gen_set_body(rng: &mut Rng, kind: SetKind) -> SetBody {
                     v.push(PfxEntry { v6: false, addr: 0x0A00_0000, len: 8, min: 8, max: 32 });
                     v.push(PfxEntry { v6: false, addr: 0x0A01_0200, len: 24, min: 24, max: 24 });
                 }
+                3 => {
+                    // a range that starts below the entry's own prefix length
+                    v.push(PfxEntry { v6: false, addr: 0x0A00_0000, len: 16, min: 8, max: 24 });
+                }
+                4 => {
+                    v.push(PfxEntry { v6: false, addr: 0x0A00_0000, len: 24, min: 8, max: 12 });
+                    v.push(PfxEntry { v6: false, addr: 0x0A00_0000, len: 8, min: 16, max: 16 });
+                    v.push(PfxEntry { v6: false, addr: 0, len: 0, min: 0, max: 0 });
+                }
+                5 => {
+                    v.push(PfxEntry { v6: true, addr: 0x2001_0db8_0000_0000_0000_0000_0000_0000, len: 48, min: 16, max: 64 });
+                    v.push(PfxEntry { v6: true, addr: 0, len: 0, min: 32, max: 32 });
+                }
                 2 => {
-                    v.push(PfxEntry { v6: true, addr: V6_STEMS[0].0, len: 32, min: 32, max: 64 });
-                    v.push(PfxEntry { v6: true, addr: V6_STEMS[1].0, len: 48, min: 48, max: 48 });
+                    v.push(PfxEntry { v6: true, addr: 0x2001_0db8_0000_0000_0000_0000_0000_0000, len: 32, min: 32, max: 64 });
+                    v.push(PfxEntry { v6: true, addr: 0x2001_0db8_0001_0000_0000_0000_0000_0000, len: 48, min: 48, max: 48 });
                 }
                 _ => {}
             }
@@ -2230,31 +2339,39 @@ fn api_attrs(wire_attrs: &[(u8, u8, Vec<u8>)]) -> (Arc<Vec<Attribute>>, Option<N
 fn gen_route(rng: &mut Rng, w: &World, rep: &mut Report) -> RouteCtx {
     let fam = *rng.pick(&[Fam::V4, Fam::V4, Fam::V4, Fam::V4, Fam::V4, Fam::V6, Fam::V6, Fam::Vpn4, Fam::Mpls4]);
     let v6 = fam == Fam::V6;
-    // a prefix at or below a stem of the universe
-    let (stem, slen) = if v6 {
-        let s = *rng.pick(&V6_STEMS);
-        (s.0, s.1)
-    } else {
-        let s = *rng.pick(&V4_STEMS);
-        (s.0 as u128, s.1)
-    };
+    // A prefix along a "spine" of the universe: spine truncated to a length drawn from
+    // 0 ..= a bit past the longest entry, so that routes shorter than every entry,
+    // equal to an entry and one bit longer all occur.  Spines with long zero runs
+    // (10.0.0.0, 192.168.0.0, 2001:db8::) make a short route's address fall inside
+    // longer entries of the same chain.
+    const V4_SPINES: [u32; 7] = [0x0A00_0000, 0x0A00_0000, 0x0A01_0280, 0x0A01_0280, 0xC0A8_0000, 0x0A02_0000, 0];
+    const V6_SPINES: [u128; 4] =
+        [0x2001_0db8_0000_0000_0000_0000_0000_0000, 0x2001_0db8_0000_0000_0000_0000_0000_0000, 0x2001_0db8_0001_0002_0000_0000_0000_0000, 0];
+    let spine = if v6 { *rng.pick(&V6_SPINES) } else { *rng.pick(&V4_SPINES) as u128 };
     let wd = width(v6) as u64;
-    let len = match rng.below(4) {
-        0 => slen,
-        1 => rng.range(slen as u64, (slen as u64 + 9).min(wd)) as u8,
-        2 => *rng.pick(&[8u8, 16, 24, 25, 32]).min(&(wd as u8)),
+    let lmax = if v6 { 66 } else { 32 };
+    let stem_lens: Vec<u8> = if v6 { V6_STEMS.iter().map(|s| s.1).collect() } else { V4_STEMS.iter().map(|s| s.1).collect() };
+    let len = match rng.below(20) {
+        0..=10 => rng.range(0, lmax) as u8,
+        11..=15 => {
+            // just below / at / just above an entry length
+            let l = *rng.pick(&stem_lens) as i64 + rng.range(0, 2) as i64 - 1;
+            l.clamp(0, wd as i64) as u8
+        }
+        16..=18 => *rng.pick(&[8u8, 16, 24, 25, 32]),
         _ => rng.range(0, wd) as u8,
     };
     let noise = ((rng.next_u64() as u128) << 64 | rng.next_u64() as u128) & if v6 { u128::MAX } else { 0xffff_ffff };
-    let keep = slen.min(len);
-    let addr = if rng.chance(1, 5) {
-        // sibling / unrelated
-        mask_to(noise, len, v6)
-    } else {
-        let low = if keep as u64 >= wd { 0 } else if keep == 0 { noise } else { noise & ((1u128 << (wd as u32 - keep as u32)) - 1) };
-        // bias the low bits towards the nested stems (10.1.2.x)
-        let base = if !v6 && rng.bool() { 0x0A01_0200u128 } else { mask_to(stem, keep, v6) };
-        mask_to(mask_to(base, keep, v6) | low & if rng.bool() { !0 } else { 0x0001_02ff }, len, v6)
+    let addr = match rng.below(20) {
+        0..=13 => mask_to(spine, len, v6),
+        14..=16 if len > 0 => mask_to(spine, len, v6) ^ (1u128 << (wd as u32 - len as u32)), // sibling
+        17 | 18 => {
+            // below the spine's prefix of a random shorter length, random tail
+            let keep = rng.range(0, len as u64) as u8;
+            let tail = if keep == 0 { noise } else if keep as u64 >= wd { 0 } else { noise & ((1u128 << (wd as u32 - keep as u32)) - 1) };
+            mask_to(mask_to(spine, keep, v6) | tail, len, v6)
+        }
+        _ => mask_to(noise, len, v6),
     };
     let src = rng.usize(w.sources.len());
     let is_ebgp = matches!(w.sources[src].0.role, PeerRole::Ebgp);
